@@ -500,6 +500,7 @@ type ClientReq struct {
 	OmitProtoVersion bool
 	GetBase64        *bool  // connect-get: force base64 on/off
 	ContentType      string // override
+	Spelling         int    // see ClientPlan.Spelling
 }
 
 type RenderedReq struct {
@@ -515,7 +516,23 @@ func codecContentSuffix(codec string) string { return codec }
 
 func renderRequest(c *ClientReq) *RenderedReq {
 	r := &RenderedReq{Method: "POST", Target: c.MethodPath, HasBody: true}
-	add := func(k, v string) { r.Headers = append(r.Headers, [2]string{k, v}) }
+	add := func(k, v string) {
+		if strings.HasSuffix(k, "Accept-Encoding") && len(c.AcceptComp) > 1 && v == strings.Join(c.AcceptComp, ",") {
+			switch {
+			case c.Spelling&4 != 0: // one header line per value
+				for _, a := range c.AcceptComp {
+					r.Headers = append(r.Headers, [2]string{k, a})
+				}
+				return
+			case c.Spelling&2 != 0:
+				v = strings.Join(c.AcceptComp, ", ")
+			}
+		}
+		if k == "Content-Type" && v == "application/json" && c.Spelling&1 != 0 && (c.Form == FormConnectUnary || c.Form == FormREST) {
+			v = "application/json; charset=utf-8"
+		}
+		r.Headers = append(r.Headers, [2]string{k, v})
+	}
 	frames := func() {
 		for _, m := range c.Msgs {
 			data := m.Data
